@@ -328,6 +328,10 @@ def build_for(case):
                             and inspect.getcoroutinestate(act) == inspect.CORO_CREATED:
                         act.close()
         background = [first_cancel()] if spec.get('in_cleanup') else []
+        if spec.get('in_cleanup'):
+            # its clean-up takes virtual time by design (the rule about second strikes is
+            # `c16:caller-struck-but-call-goes-on`)
+            arena.slow_leavers.add('consumer')
         return [('consumer', consumer)], background, checker
     return build
 
